@@ -105,7 +105,7 @@ pub fn replay(id: &str, v: &serde_json::Value) -> i32 {
         "C08" => {
             if v["part"] == "bucket" { table::replay_bucket(v) } else { table::replay_table(v, true, false) }
         }
-        "C09" if v["part"] == "binding" => c09b::replay(v),
+        "C09" if v["part"] == "binding" || v["part"] == "binding-crowded" => c09b::replay(v),
         "C09" => table::replay_table(v, false, true),
         "C10" if v["part"] == "binding" => c10b::replay(v),
         "C10" => c10::replay(v),
